@@ -1,5 +1,6 @@
 import Driver.FlowMon
 import OidcModel.Spec.C05
+import OidcModel.Spec.C05Wire
 open Kv Drv
 
 namespace Drv.C05
@@ -31,6 +32,36 @@ def oraclesOf (l : Line) : EPOracles :=
   { unescape := fun s => if hasB && s == u then ur else if hasB && s == p then pr else .ok s,
     tokenOf := fun s => if has l "tok.str" && s == tokStr then tok else junk }
 
+/-- the Authorization header of the request as sent (round 4; older lines do not carry it) -/
+def hdrOf (l : Line) : Option String := if bool l "hdr.set" then some (str l "hdr") else none
+
+def unhex (s : String) : List UInt8 :=
+  let rec go : List Char → List UInt8
+    | a :: b :: rest =>
+      match _root_.C05.Wire.hexVal (UInt8.ofNat a.toNat), _root_.C05.Wire.hexVal (UInt8.ofNat b.toNat) with
+      | some x, some y => UInt8.ofNat (x * 16 + y) :: go rest
+      | _, _ => go rest
+    | _ => []
+  go s.toList
+
+/-- does the monitor's own reading of the header bytes (Spec/C05Wire.lean) agree with what net/http's `r.BasicAuth()` and
+    `url.QueryUnescape` reported for this request (hex fields `w.*`)? -/
+def wireAgrees (l : Line) : Bool :=
+  if !has l "hdr.set" then true else
+  let mine := (hdrOf l).bind _root_.C05.Wire.basicOfHeader
+  let theirs : Option (List UInt8 × List UInt8) := if bool l "basic" then some (unhex (str l "w.u"), unhex (str l "w.p")) else none
+  mine == theirs &&
+    (match mine with
+     | some (u, p) =>
+       _root_.C05.Wire.queryUnescape u == (if has l "w.uu" then some (unhex (str l "w.uu")) else none) &&
+       _root_.C05.Wire.queryUnescape p == (if has l "w.pu" then some (unhex (str l "w.pu")) else none)
+     | none => true)
+
+/-- the credentials of the request: read off the wire when the line carries the header, else from the oracle answers -/
+def credsLine (l : Line) : _root_.C05.Creds :=
+  if has l "hdr.set" then _root_.C05.Wire.credsOfWire (oraclesOf l).tokenOf (hdrOf l) (requestOf l).Form
+  else _root_.C05.credsOf (oraclesOf l) (requestOf l)
+
 def endpointOf (l : Line) : _root_.C05.Endpoint :=
   match str l "endpoint" with
   | "introspect" => .introspect
@@ -44,7 +75,7 @@ def obsOf (l : Line) : _root_.C05.Obs :=
 def monitorLine (l : Line) : Option String :=
   if str l "obs" == "panic" then some "panic" else
   let c := cfgOf l
-  let k := _root_.C05.credsOf (oraclesOf l) (requestOf l)
+  let k := credsLine l
   if bool l "o.orphan" then some "tokens-created-on-refused-request" else
   let v0 := _root_.C05.judge c (int l "now0") (endpointOf l) k (obsOf l)
   let v1 := _root_.C05.judge c (int l "now1") (endpointOf l) k (obsOf l)
@@ -62,6 +93,6 @@ def classOf (l : Line) : String :=
   s!"{str l "router"}:{str l "endpoint"}{g}:{str l "pres"}:{if bool l "o.success" then "success" else "refused:" ++ str l "o.err"}"
 
 def step (l : Line) : String :=
-  s!"case={str l "case"} class={classOf l} model=- observed={obsString l} monitor={showMon (monitorLine l)} agree=1"
+  s!"case={str l "case"} class={classOf l} model=- observed={obsString l} monitor={showMon (monitorLine l)} agree={if wireAgrees l then 1 else 0}"
 
 end Drv.C05
